@@ -17,7 +17,9 @@ for m in mutants/$GLOB.patch; do
   if [ $TESTS = 1 ]; then
     T="$(mktemp -d /tmp/verif-mut.XXXXXX)"; rsync -a --exclude .git /repo/ "$T"/; (cd "$T" && patch -p1 -s < "/verif/$m" && go build ./... && go test -vet=off -count=1 ./... >/dev/null 2>&1) && tests=pass || tests=FAIL; rm -rf "$T"
   fi
-  out="$(VERIF_PATCH="$PWD/$m" VERIF_RACE_BUDGET_S=5 ./check "$prop" quick -no-evidence -runs "${MUT_RUNS:-400}" 2>&1)"; rc=$?
+  RUNS=(-runs "${MUT_RUNS:-400}")
+  [ "$prop" = C05 ] && RUNS=()   # C05 runs are cheap: use the full quick count (its rarer triggers need it)
+  out="$(VERIF_PATCH="$PWD/$m" VERIF_RACE_BUDGET_S=5 ./check "$prop" quick -no-evidence "${RUNS[@]}" 2>&1)"; rc=$?
   kinds="$(echo "$out" | grep -o 'kind=[^ ]*' | sort -u | tr '\n' ' ')"
   if [ $rc = 1 ]; then echo "CAUGHT  $m  (unit tests: $tests)  $kinds"; else echo "MISSED  $m  rc=$rc (unit tests: $tests)"; missed=$((missed+1)); echo "$out" | tail -3; fi
 done
